@@ -189,7 +189,9 @@ def value_line(draw, maxlen, first):
     """A line of a field body: no leading/trailing white space for the first line;
     continuation lines start with SP/HT and contain non-blank text."""
     base = draw(st.one_of(_ascii_inner, _inner, st.sampled_from([b'hello world', b'a', b'=?utf-8?q?x?=', b'<a@b>',
-                                                               b'text/plain; charset=utf-8', b'\xc3\xa9t\xc3\xa9', b'\xff\xfe'])))
+                                                               b'text/plain; charset=utf-8', b'\xc3\xa9t\xc3\xa9', b'\xff\xfe',
+                                                               b'text/plain; name*', b"a/b; x*0*=utf-8''a; x*1", b'a/b; =', b'a/b;;',
+                                                               b'multipart/mixed', b'multipart/mixed; boundary', b'a/b; x*='])))
     base = base.strip(b' \t')
     if not first:
         if not base:
@@ -263,7 +265,9 @@ _weak = st.one_of(
                               b'To: ', b'From: ', b'Sender: ', b'Cc: ', b'Date: ', b'Message-Id: ', b'Received: ', b'Content-Type: ',
                               b'"', b'<', b'>', b',', b';', b'(', b')', b'@', b'.', b'\\', b'"Example Widgets Ltd." Inc.: ',
                               b'alice@example.com, bob@example.com, carol@example.com;', b'undisclosed-recipients:;', b'=?utf-8?b?',
-                              b'a@b.example', b'Group Name: ', b'"quoted, name" <q@example.org>, ', b'x' * 30]), max_size=25).map(b''.join))
+                              b'a@b.example', b'Group Name: ', b'"quoted, name" <q@example.org>, ', b'x' * 30,
+                              b'Content-Disposition: ', b'text/plain', b'; charset', b'; name*', b'*=', b'*0*=', b"utf-8''x", b'=']),
+             max_size=25).map(b''.join))
 
 
 def run_weak(ctx, n):
